@@ -114,6 +114,23 @@ class Prov:
                                 isinstance(n, ast.Name) for n in ast.walk(sub)
                             ):
                                 return sub
+                        elif len(non_none) == 1 and t.cls is None:
+                            # module-level value helper (`read_lines(path)`): root its result inside the helper; if that is one of
+                            # the helper's parameters (possibly behind an attribute chain), continue with the caller's argument
+                            sub = Prov(self.ctx, t).root(non_none[0].value, depth, inline - 1)
+                            base = sub
+                            while isinstance(base, ast.Attribute):
+                                base = base.value
+                            if isinstance(base, ast.Name) and base.id in t.params():
+                                from .model import bind_args
+
+                                arg = bind_args(e, t, False).get(base.id)
+                                if arg is not None:
+                                    from .derive import subst
+
+                                    e = subst(sub, {base.id: arg})
+                                    inline -= 1
+                                    continue
                 return e
             return e
         return e
